@@ -57,6 +57,7 @@ def main():
         engines = [mk(opt) for opt in job["engines"]]
         scripts = {}
         live = False
+        last_out = None
         for ci, c in enumerate(job["calls"]):
             out("B", "%s %d" % (job["id"], ci))
             e = engines[c["obj"]]
@@ -106,7 +107,8 @@ def main():
                 elif k == "is_complete":
                     res["ret"] = bool(e.is_complete())
                 elif k == "get_output":
-                    res["ret"] = traj_json(e.get_output(), full=c.get("full", True))
+                    last_out = e.get_output()
+                    res["ret"] = traj_json(last_out, full=c.get("full", True))
                 elif k == "finalize":
                     live = False
                     e.finalize()
@@ -114,6 +116,38 @@ def main():
                 elif k == "new":
                     engines[c["obj"]] = mk(job["engines"][c["obj"]])
                     res["ret"] = None
+                elif k == "schedule":
+                    # a driving schedule: [["iterate"], ["iterate_n", k], ["run", ms], ...]; stops at completion; when the
+                    # list is exhausted the last entry is repeated until completion (bounded by "max")
+                    log = []
+                    steps = list(c["steps"]) or [["run", 1]]
+                    i = 0
+                    done = False
+                    while not done and len(log) < c.get("max", 100000):
+                        st_ = steps[min(i, len(steps) - 1)]
+                        i += 1
+                        if st_[0] == "iterate":
+                            u = e.iterate()
+                        elif st_[0] == "iterate_n":
+                            u = e.iterate_n(st_[1])
+                        else:
+                            u = e.run(st_[1])
+                        log.append([bool(u), float(lib.engineexport_get_time())])
+                        done = not u
+                    res["ret"] = {"log": log[-50:], "ncalls": len(log), "complete": done}
+                elif k in ("simulate", "resim"):
+                    # the package's own driver (simulate_script: run(1000) slices, get_output, finalize)
+                    from strengths.simulate import simulate_script
+                    if k == "simulate":
+                        si = c["script"]
+                        if si not in scripts:
+                            scripts[si] = build_script(job["scripts"][si])
+                        src = scripts[si]
+                    else:
+                        src = last_out.script
+                    last_out = simulate_script(src, e)
+                    live = False
+                    res["ret"] = traj_json(last_out, full=c.get("full", False))
                 elif k == "drive":
                     T, U, X, C = [], [], [], []
                     samples = set(c.get("samples", []))
